@@ -133,6 +133,7 @@ class Ctx:
         self.tlc_runs = []
         self.actions = {}
         self.assumptions = []
+        self.transients = []
         self.divergences = []     # confirmed, not-known
         self.known_hits = {}      # finding id -> count
         self.rule = ""
@@ -417,11 +418,21 @@ class Ctx:
         for k, fl in sorted(groups.items()):
             sig = json.loads(k)
             fl.sort(key=lambda f: (len(f["behaviour"]) if isinstance(f["behaviour"], list) else 0, f["id"]))
-            rep = fl[0]
-            conf = self._confirm(adapter, params, rep, per_timeout, sig, prop)
+            rep, conf = fl[0], False
+            for cand in fl[:3]:
+                conf = self._confirm(adapter, params, cand, per_timeout, sig, prop)
+                if conf:
+                    rep = cand
+                    break
             if not conf:
-                raise Infra("divergence did not reproduce from its replay file (flaky harness?): %s\n%s"
-                            % (k, json.dumps({kk: vv for kk, vv in rep.items() if kk not in ("behaviour", "context", "_ctx")})[:2000]))
+                what = json.dumps({kk: vv for kk, vv in rep.items() if kk not in ("behaviour", "context", "_ctx")})[:2000]
+                if len(fl) > 3:
+                    raise Infra("%d divergences of one kind, none reproduces from its replay file (flaky harness?): %s\n%s" % (len(fl), k, what))
+                # one or two isolated observations that the same behaviour, re-run alone and in context (9 attempts each), does not
+                # show again: noise of a loaded machine (a wait that expired), not a counterexample. Recorded, never a verdict.
+                log("unreproduced divergence ignored (%d occurrence(s)): %s %s" % (len(fl), k, what[:600]))
+                self.transients.append({"signature": sig, "count": len(fl), "observation": json.loads(what) if what.endswith("}") else what})
+                continue
             if isinstance(conf, dict):
                 # the same behaviour diverges, but (Go map iteration order) at another observation point: report what reproduced
                 sig = conf
@@ -525,6 +536,7 @@ class Ctx:
             "tlc_runs": self.tlc_runs,
             "impl_actions_replayed": self.actions,
             "known_findings_hit": self.known_hits,
+            "unreproduced_observations": self.transients,
         }
         cov.update(self.extra)
         ev = {"property_id": self.pid, "tier": self.tier, "seed": self.seed, "level": level,
